@@ -34,14 +34,14 @@ LATS = [{"CL": 1, "RL": 2, "WL": 2, "DL": 2}, {"CL": 1, "RL": 1, "WL": 3, "DL": 
         {"CL": 1, "RL": 3, "WL": 1, "DL": 2}, {"CL": 0, "RL": 2, "WL": 2, "DL": 1},
         {"CL": 2, "RL": 1, "WL": 1, "DL": 1}]
 TICKS = (1_000_000, 1000, 1, 1_000_000_000)
-# deviation -> (invariants one of which TLC must report, write mode, latencies, gaps of the sensitivity run)
+# deviation -> (invariants one of which TLC must report, scenario of the sensitivity run)
 DEVIATIONS = {
-    "dirty_evicted_without_writeback": (("InvBackingFinal", "InvReadFresh"), False, 0, (0, 1)),
-    "miss_fill_overwrites_newer_write": (("InvReadFresh", "InvBackingFinal"), True, 0, (0, 1)),
-    "flush_clears_dirty_of_concurrent_write": (("InvBackingFinal", "InvReadFresh"), False, 0, (0, 1)),
-    "wb_delete_exposes_stale_backing": (("InvReadFresh",), False, 1, (0, 2)),
-    "evict_none_breaks_capacity": (("InvCapacity",), True, 0, (0, 1)),
-    "remove_skips_policy": (("InvPolicyKeys",), True, 0, (0, 1)),
+    "dirty_evicted_without_writeback": (("InvBackingFinal", "InvReadFresh"), 1),
+    "miss_fill_overwrites_newer_write": (("InvReadFresh", "InvBackingFinal"), 2),
+    "flush_clears_dirty_of_concurrent_write": (("InvBackingFinal", "InvReadFresh"), 1),
+    "wb_delete_exposes_stale_backing": (("InvReadFresh",), 3),
+    "evict_none_breaks_capacity": (("InvCapacity",), 2),
+    "remove_skips_policy": (("InvPolicyKeys",), 2),
 }
 
 
@@ -55,15 +55,23 @@ def tla_set(items):
     return "{" + ",".join(f'"{d}"' for d in items) + "}"
 
 
-def mc_consts(*, K=2, cap=1, wt=False, pol="ANY", dev=(), nops=(2, 1, 0), gaps=(0, 1), kinds=ALL_KINDS,
-              lat=None, pre=(1,)):
-    lat = lat or LATS[0]
+# mirrors Scen(i) of CacheMC.tla: (write_through, latency table index)
+SCENARIOS = {1: (False, 0), 2: (True, 0), 3: (False, 1), 4: (True, 1), 5: (False, 2), 6: (True, 2),
+             7: (False, 3), 8: (True, 3)}
+# short TLC runs: C1 compiler only, few GC threads (start-up dominates)
+LIGHT_JVM = {"_JAVA_OPTIONS": "-XX:TieredStopAtLevel=1 -XX:ParallelGCThreads=2 -XX:CICompilerCount=1"}
+
+
+def mc_consts(*, K=2, cap=1, scens=(1,), pol="ANY", dev=(), nops=(2, 1, 0), kinds=ALL_KINDS, pre=(1,)):
     np_ = len([n for n in nops if n > 0])
-    return {"K": K, "Cap": cap, "WT": "TRUE" if wt else "FALSE", "Pol": f'"{pol}"', "Dev": tla_set(dev),
-            "NP": np_, "N1": nops[0], "N2": nops[1], "N3": nops[2],
-            "Gaps": "{" + ",".join(str(g) for g in gaps) + "}", "Kinds": tla_set(kinds),
-            "CL": lat["CL"], "RL": lat["RL"], "WL": lat["WL"], "DL": lat["DL"],
+    return {"K": K, "Cap": cap, "Scens": "{" + ",".join(str(i) for i in scens) + "}", "Pol": f'"{pol}"',
+            "Dev": tla_set(dev), "NP": np_, "N1": nops[0], "N2": nops[1], "N3": nops[2], "Kinds": tla_set(kinds),
             "Pre": "{" + ",".join(str(k) for k in pre) + "}", "TTLv": pol9.PAR["ttl"], "SS": pol9.PAR["ss"]}
+
+
+def scen_cfg(sc, *, K, cap, pol, pre, seed=0):
+    wt, li = SCENARIOS[sc]
+    return world_cfg(K=K, cap=cap, wt=wt, pol=pol, lat=LATS[li], pre=pre, seed=seed)
 
 
 def world_cfg(*, K, cap, wt, pol, lat, pre, tick_ns=1_000_000, seed=0):
@@ -79,11 +87,12 @@ def pre_values(K, pre_keys):
 # TLC jobs
 
 def job(label, module, consts, *, invariants=(), view=None, timeout=600, extra=None, workers=4, spec="Spec",
-        constraints=()):
+        constraints=(), light=False):
     wd = tlc.workdir(label)
     cfg = tlc.write_cfg(wd / "mc.cfg", spec=spec, constants=consts, invariants=invariants, view=view,
                         constraints=constraints)
-    return tlc.run(SPEC / module, cfg, label=label, timeout=timeout, extra=extra, workers=workers)
+    return tlc.run(SPEC / module, cfg, label=label, timeout=timeout, extra=extra, workers=workers,
+                   env=LIGHT_JVM if light else None)
 
 
 def prog_from_plog(plog):
@@ -125,7 +134,8 @@ def validate(traces, dev, label, chunk=1500, parallel=4):
         cfg = tlc.write_cfg(wd / "trace.cfg", spec="Spec", constants={"Dev": tla_set(dev)})
         f = wd / "traces.json"
         f.write_text(json.dumps(part, separators=(",", ":")))
-        res = tlc.run(SPEC / "CacheTrace.tla", cfg, label=lab, workers=1, timeout=3000, env={"TRACE_FILE": str(f)})
+        res = tlc.run(SPEC / "CacheTrace.tla", cfg, label=lab, workers=1, timeout=3000,
+                      env={"TRACE_FILE": str(f), "_JAVA_OPTIONS": "-XX:ParallelGCThreads=2 -XX:CICompilerCount=2"})
         f.unlink()
         return part, res
 
@@ -242,23 +252,20 @@ def run(tier, seed, replay=None):
     pool = ThreadPoolExecutor(max_workers=6 if quick else 8)
     jobs = {}
     # -- 1. model checking -------------------------------------------------
-    big = (2, 1, 0) if quick else (2, 2, 0)
-    for wt in (False, True):
-        name = f"clean_{'wt' if wt else 'wb'}"
-        jobs[name] = pool.submit(job, f"C16_mc_{name}", "CacheMC.tla",
-                                 mc_consts(wt=wt, nops=big, lat=LATS[0 if wt else 1], gaps=(0, 1) if wt else (0, 2)),
-                                 invariants=INVS, view="View", timeout=3000)
-    if not quick:
-        jobs["clean_wb_k3"] = pool.submit(job, "C16_mc_clean_wb_k3", "CacheMC.tla",
-                                          mc_consts(K=3, cap=2, wt=False, nops=(2, 1, 0), pre=(1, 2)),
-                                          invariants=INVS, view="View", timeout=3000)
-        jobs["clean_wt_lat"] = pool.submit(job, "C16_mc_clean_wt_lat", "CacheMC.tla",
-                                           mc_consts(wt=True, nops=(2, 1, 0), lat=LATS[1], gaps=(0, 1, 2)),
-                                           invariants=INVS, view="View", timeout=3000)
-    for dev, (invs, wt, li, gaps) in DEVIATIONS.items():
+    if quick:
+        jobs["clean_wb+wt"] = pool.submit(job, "C16_mc_clean", "CacheMC.tla", mc_consts(scens=(3, 2)),
+                                          invariants=INVS, view="View", timeout=3000, workers=6)
+    else:
+        for name, kw in (("clean_k2_2x2", dict(scens=(1, 2, 3, 4), nops=(2, 2, 0))),
+                         ("clean_k2_lat", dict(scens=(5, 6, 7, 8))),
+                         ("clean_k3", dict(K=3, cap=2, scens=(3, 2), pre=(1, 2))),
+                         ("clean_3procs", dict(scens=(3, 2), nops=(1, 1, 1)))):
+            jobs[name] = pool.submit(job, f"C16_mc_{name}", "CacheMC.tla", mc_consts(**kw), invariants=INVS,
+                                     view="View", timeout=6000, workers=6)
+    for dev, (invs, sc) in DEVIATIONS.items():
         jobs[f"dev_{dev}"] = pool.submit(job, f"C16_mc_dev_{dev[:12]}", "CacheMC.tla",
-                                         mc_consts(wt=wt, dev=[dev], nops=(2, 1, 0), lat=LATS[li], gaps=gaps),
-                                         invariants=INVS, view="View", timeout=900, workers=2)
+                                         mc_consts(scens=(sc,), dev=[dev]), invariants=INVS, view="View",
+                                         timeout=900, workers=2, light=True)
     pol_dot = tlc.workdir("C16_pol") / "pol.dot"
     pol_consts = {"Pols": tla_set(pol9.POLICIES), "NKeys": 3, "MaxT": 3, "MaxCnt": 3, "MaxN": 6, "MaxLen": 4,
                   "Strict": "TRUE", "TTLv": pol9.PAR["ttl"], "SS": pol9.PAR["ss"], "A1Max": pol9.PAR["a1max"]}
@@ -266,18 +273,16 @@ def run(tier, seed, replay=None):
     def pol_job():
         cfg = tlc.write_cfg(tlc.WORK / "C16_pol" / "mc.cfg", spec="Spec", constants=pol_consts,
                             invariants=["InvTracked", "InvVictim"], constraints=["Bound"])
-        return tlc.run(SPEC / "PoliciesMC.tla", cfg, label="C16_pol", timeout=900, dump_dot=pol_dot, workers=2)
+        return tlc.run(SPEC / "PoliciesMC.tla", cfg, label="C16_pol", timeout=900, dump_dot=pol_dot, workers=2,
+                       env=LIGHT_JVM)
     jobs["policies"] = pool.submit(pol_job)
 
     # program enumeration: explicit LRU, deviations as in the code, no invariants, full state (no VIEW)
-    gen_jobs = {}
-    for wt in (False, True):
-        lab = f"C16_gen_{'wt' if wt else 'wb'}"
-        wd = tlc.workdir(lab)
-        gen_jobs[wt] = (wd, pool.submit(job, lab, "CacheMC.tla",
-                                        mc_consts(wt=wt, pol="LRU", dev=known_dev, nops=(1, 1, 0) if quick else (2, 1, 0),
-                                                  kinds=("get", "put", "del", "inv", "flush")),
-                                        timeout=3000, extra=["-dump", str(wd / "states")], workers=2))
+    gen_wd = tlc.workdir("C16_gen")
+    gen_job = pool.submit(job, "C16_gen", "CacheMC.tla",
+                          mc_consts(scens=(1, 2) if quick else (1, 2, 3, 4), pol="LRU", dev=known_dev,
+                                    nops=(1, 1, 0) if quick else (2, 1, 0)),
+                          timeout=3000, extra=["-dump", str(gen_wd / "states")], workers=2, light=quick)
 
     # -- 3a. random real executions while TLC runs --------------------------
     n_rand = 1800 if quick else 30000
@@ -301,11 +306,9 @@ def run(tier, seed, replay=None):
             if res.trace:
                 plog = res.trace[-1][1].get("plog")
                 if plog:
-                    wt = DEVIATIONS[dev][1]
                     prog = prog_from_plog(plog)
                     for pol in ("LRU", "CLOCK", "TWOQ"):
-                        runs.execute(world_cfg(K=2, cap=1, wt=wt, pol=pol, lat=LATS[DEVIATIONS[dev][2]],
-                                               pre=pre_values(2, [1])),
+                        runs.execute(scen_cfg(DEVIATIONS[dev][1], K=2, cap=1, pol=pol, pre=pre_values(2, [1])),
                                      prog, f"tlc_counterexample:{dev}")
                         chk.replays += 1
         else:
@@ -338,50 +341,49 @@ def run(tier, seed, replay=None):
     # -- 2b. programs enumerated by TLC, executed on the real CachedStore ----
     n_model = 0
     state_checked = matched = 0
-    for wt, (wd, fut) in gen_jobs.items():
-        res = fut.result()
-        chk.add_tlc(f"program enumeration write_through={wt}", res, count=False,
-                    note="terminal states enumerate client programs (explicit LRU, deviations as in the code)")
-        terms = {}
-        for st in tlc.parse_dump(wd / "states.dump", must_contain="heap = {}"):
-            prog = prog_from_plog(st["plog"])
-            terms[json.dumps(prog)] = st
-        (wd / "states.dump").unlink(missing_ok=True)
-        keys = sorted(terms)
-        capn = 500 if quick else 4000
-        if len(keys) > capn:
-            keys = rng.sample(keys, capn)
+    res = gen_job.result()
+    chk.add_tlc("program enumeration", res, count=False,
+                note="terminal states enumerate client programs (explicit LRU, deviations as in the code)")
+    terms = {}
+    for st in tlc.parse_dump(gen_wd / "states.dump", must_contain="heap = {}"):
+        prog = prog_from_plog(st["plog"])
+        terms[json.dumps([st["sc"], prog])] = st
+    (gen_wd / "states.dump").unlink(missing_ok=True)
+    keys = sorted(terms)
+    chk.extra["model_programs_total"] = len(keys)
+    capn = 1000 if quick else 8000
+    if len(keys) > capn:
+        keys = rng.sample(keys, capn)
+    else:
+        chk.exhaustive = True
+    for j, pk in enumerate(keys):
+        sc, prog = json.loads(pk)
+        st = terms[pk]
+        w = runs.execute(scen_cfg(sc, K=2, cap=1, pol="LRU", pre=pre_values(2, [1])), prog, "model_program")
+        chk.replays += 1
+        n_model += 1
+        # state-checked replay: the model's terminal state against the real final state
+        state_checked += 1
+        fin = w.steps[-1]
+        model = (list(st["s"]["cache"]), sorted(st["s"]["dirty"]), list(st["s"]["back"]), list(st["s"]["ps"]["q1"]),
+                 sorted((dict(r)["k"], dict(r)["ret"]) for r in st["reads"]))
+        code = (fin["cache"], [k for k in range(1, 3) if fin["dirty"][k - 1]], fin["back"], fin["q1"],
+                sorted((x["k"], x["ret"]) for x in w.steps if x["kind"] == "get" and x["last"]))
+        if model == code:
+            matched += 1
         else:
-            chk.exhaustive = True
-        for j, pk in enumerate(keys):
-            prog = json.loads(pk)
-            st = terms[pk]
-            cfg = world_cfg(K=2, cap=1, wt=wt, pol="LRU", lat=LATS[0], pre=pre_values(2, [1]))
-            w = runs.execute(cfg, prog, "model_program")
-            chk.replays += 1
-            n_model += 1
-            # state-checked replay: the model's terminal state against the real final state
-            state_checked += 1
-            fin = w.steps[-1]
-            model = (list(st["s"]["cache"]), sorted(st["s"]["dirty"]), list(st["s"]["back"]), list(st["s"]["ps"]["q1"]),
-                     sorted((dict(r)["k"], dict(r)["ret"]) for r in st["reads"]))
-            code = (fin["cache"], [k for k in range(1, 3) if fin["dirty"][k - 1]], fin["back"], fin["q1"],
-                    sorted((s["k"], s["ret"]) for s in w.steps if s["kind"] == "get" and s["last"]))
-            if model == code:
-                matched += 1
-            else:
-                chk.note_drift(f"model program {prog} wt={wt}: terminal state model={model} code={code}")
-            # the same program under another policy (cap 1: the victim is forced, the policy bookkeeping is not)
-            other = pol9.POLICIES[j % 9]
-            runs.execute(world_cfg(K=2, cap=1, wt=wt, pol=other, lat=LATS[0], pre=pre_values(2, [1])), prog,
-                         "model_program")
+            chk.note_drift(f"model program {prog} scenario={sc}: terminal state model={model} code={code}")
+        # the same program under another policy (cap 1: the victim is forced, the policy bookkeeping is not)
+        runs.execute(scen_cfg(sc, K=2, cap=1, pol=pol9.POLICIES[j % 9], pre=pre_values(2, [1])), prog,
+                     "model_program")
     chk.extra["model_programs_executed"] = n_model
     chk.extra["state_checked_replays"] = {"total": state_checked, "matched": matched}
 
     _t(chk, f"model programs done: {n_model}")
     # -- 3b. validate all recorded executions with the TLA+ trace spec -------
-    verdicts, drifts, results = validate(runs.traces, known_dev, "C16_trace", chunk=700 if quick else 2500,
-                                         parallel=6 if quick else 8)
+    nb = 4 if quick else 8
+    verdicts, drifts, results = validate(runs.traces, known_dev, "C16_trace",
+                                         chunk=(len(runs.traces) + nb - 1) // nb, parallel=nb)
     for r in results:
         chk.add_tlc(f"CacheTrace batch Dev={known_dev}", r, note="trace validation, one state per recorded segment")
     chk.impl_traces = len(runs.traces)
